@@ -471,10 +471,10 @@ func c01Sentinel(c *Ctx) *RuleResult {
 		Doc: "index fields whose 'not in the container' value is -1 (operation.queueIndex, invocation.queuedChildrenIndex, invocation.idleSynchronizingWorkersChildrenIndex, worker.listIndex) are only tested against the sentinel consistently (< 0, >= 0, == -1, != -1, or equality with another index): a test such as `> 0` treats slot 0 as absent"}
 	p := c.P
 	fields := map[*types.Var]bool{
-		p.LookupField(schedPkg, "operation", "queueIndex"):                          true,
-		p.LookupField(schedPkg, "invocation", "queuedChildrenIndex"):                true,
+		p.LookupField(schedPkg, "operation", "queueIndex"):                             true,
+		p.LookupField(schedPkg, "invocation", "queuedChildrenIndex"):                   true,
 		p.LookupField(schedPkg, "invocation", "idleSynchronizingWorkersChildrenIndex"): true,
-		p.LookupField(schedPkg, "worker", "listIndex"):                              true,
+		p.LookupField(schedPkg, "worker", "listIndex"):                                 true,
 	}
 	isConst := func(info *types.Info, e ast.Expr) (int64, bool) {
 		tv, ok := info.Types[e]
@@ -539,8 +539,8 @@ func c01Sentinel(c *Ctx) *RuleResult {
 
 func init() {
 	register(&PropertySpec{
-		ID:    "C01",
-		Level: "other",
+		ID:          "C01",
+		Level:       "other",
 		Explanation: "Structural necessary conditions of 'each task is held by exactly one queue or one worker', decided for all paths of the current source: all scheduler state is accessed under the big lock (lock-flow engine with a guarded-by table, entry points enumerated); the worker<->task link and the task.operations<->operation.invocation mirror are written on both sides together; execute responses are only built from the responding worker's own task; the final response is stored only after unlinking and un-counting; worker reports are applied only under digest equality; index sentinels are tested consistently. Does not decide the whole-history invariant (needs state exploration).",
 		Assumptions: []string{"heap index fields mirror positions (container/heap contract)", "callbacks given to cleanupQueue.add only run from enter() (checked: cleanupQueue.run is only called there, rule C06.enter)"},
 		Rules:       []RuleFunc{c01Guarded, c01Pair, c01Dispatch, c01Complete, c01Identity, c01Sentinel, schedWorkerRemoval, schedUnqueueAll, schedOpsKey, schedParkedRecheck},
